@@ -38,6 +38,11 @@ import (
 
 const dest = "api"
 
+// jwtPct: chance (percent) that a generated config entry carries an entry-level JWT requirement;
+// 0 also strips permission-level requirements (public-listener stream: the listener code would
+// need real JWKS material for its jwt_authn filter)
+var jwtPct = 25
+
 // commaNames: generate callers named `<source>,x` (known finding rbac:xfcc-service-name-with-comma)
 const commaNames = true
 
@@ -68,7 +73,7 @@ func callRules(e envT, xs []*structs.Intention, dflt, http bool) (res result) {
 			res = result{panic: fmt.Sprint(p)}
 		}
 	}()
-	rb, err := xds.VerifMakeRBACRules(cloneIxns(xs), dflt, e.localTD, "dc1", "default", http, e.proto())
+	rb, err := xds.VerifMakeRBACRules(cloneIxns(xs), dflt, e.localTD, "dc1", "default", http, e.proto(), e.providerMap())
 	return result{rb: rb, err: err}
 }
 
@@ -80,7 +85,7 @@ func callFilter(e envT, xs []*structs.Intention, dflt, http bool) (res result) {
 		}
 	}()
 	if http {
-		f, err := xds.VerifMakeRBACHTTPFilter(cloneIxns(xs), dflt, e.localTD, "dc1", "default", e.proto())
+		f, err := xds.VerifMakeRBACHTTPFilter(cloneIxns(xs), dflt, e.localTD, "dc1", "default", e.proto(), e.providerMap())
 		if err != nil {
 			return result{err: err}
 		}
@@ -190,8 +195,8 @@ type rbacCase struct {
 }
 
 func (c *rbacCase) op() string {
-	return fmt.Sprintf("rbac %s %s %s %s %s %s %s", hx.EncBool(c.dflt), hx.EncBool(c.http), hx.EncS(c.env.localTD),
-		encBundles(c.env.bundles), encIxns(c.ixns), encCallers(c.callers), encReqs(c.reqs, allPerms(c.ixns)))
+	return fmt.Sprintf("rbac %s %s %s %s %s %s %s %s", hx.EncBool(c.dflt), hx.EncBool(c.http), hx.EncS(c.env.localTD),
+		encBundles(c.env.bundles), encProviders(c.env.providers), encIxns(c.ixns), encCallers(c.callers), encReqs(c.reqs, allPerms(c.ixns)))
 }
 
 var hexTok = regexp.MustCompile(`\bx((?:[0-9a-f]{2})+)\b`)
@@ -264,8 +269,15 @@ func runRBAC(run *hx.Run, c *rbacCase) {
 	spec := make([][]bool, len(c.callers))
 	for i, k := range c.callers {
 		for _, q := range reqs {
-			d, _ := decide(c.env, c.ixns, c.dflt, c.http, k, q)
+			d, dec := decide(c.env, c.ixns, c.dflt, c.http, k, q)
 			spec[i] = append(spec[i], d)
+			if c.http && dec != nil && dec.JWT != nil && len(dec.JWT.Providers) > 0 {
+				if jwtSat(c.env, dec.JWT, q) {
+					run.Tag("decider-jwt:met")
+				} else {
+					run.Tag("decider-jwt:not-met")
+				}
+			}
 		}
 	}
 	specS := make([]string, len(spec))
@@ -291,11 +303,17 @@ func runRBAC(run *hx.Run, c *rbacCase) {
 		run.Line(op, "rbac=panic eval=- spec="+strings.Join(specS, "."))
 		return
 	}
+	wantErr := expectError(c.env, c.ixns, c.http)
 	if res.err != nil {
 		run.Tag("result:error")
 		run.Line(op, "rbac=error eval=- spec="+strings.Join(specS, "."))
-		run.Violate("rbac:unexpected-error", res.err.Error(), []string{op})
+		if !wantErr {
+			run.Violate("rbac:unexpected-error", res.err.Error(), []string{op})
+		}
 		return
+	}
+	if wantErr {
+		run.Violate("rbac:unknown-jwt-provider-accepted", "an intention names a JWT provider without jwt-provider entry, no error", []string{op})
 	}
 	rb := res.rb
 	ctx := &evalCtx{}
@@ -335,6 +353,9 @@ func runRBAC(run *hx.Run, c *rbacCase) {
 	if strings.Contains(s, "L7-") {
 		run.Tag("shape:l7-policy")
 	}
+	if strings.Contains(s, "meta(") {
+		run.Tag("shape:jwt-metadata")
+	}
 	if strings.Contains(s, "and(path") || strings.Contains(s, "and(hdr") || strings.Contains(s, "not(path") || strings.Contains(s, "not(hdr") || strings.Contains(s, "not(and") {
 		run.Tag("shape:not-permission")
 	}
@@ -351,6 +372,14 @@ func runRBAC(run *hx.Run, c *rbacCase) {
 		}
 		if x.SourcePeer != "" {
 			run.Tag("ixn:peered")
+		}
+		if x.JWT != nil && len(x.JWT.Providers) > 0 {
+			run.Tag("ixn:jwt")
+		}
+		for _, p := range x.Permissions {
+			if p.JWT != nil && len(p.JWT.Providers) > 0 {
+				run.Tag("perm:jwt")
+			}
 		}
 		if x.SourceName == "*" {
 			run.Tag("ixn:wild-source")
@@ -422,7 +451,16 @@ func runRBAC(run *hx.Run, c *rbacCase) {
 			}
 			name := effectiveName(k)
 			sig := fmt.Sprintf("rbac:policy-%s-intentions-%s:%s", got, want, k.class)
-			if urlUnsafe(name) && mentioned(c.ixns, func(string) bool { return true }, name) {
+			unsafeSource := false
+			for _, x := range c.ixns {
+				if urlUnsafe(x.SourceName) {
+					unsafeSource = true
+				}
+			}
+			if urlUnsafe(name) && unsafeSource {
+				// the caller's certificate carries the escaped form of its name and some source pattern
+				// is built from an unescaped name: every confusion between the two has this shape
+				// (`a b` is not matched by source `a b`, but is matched by source `a%20b`)
 				sig = "rbac:source-name-needs-url-escaping"
 			} else if i := strings.IndexByte(name, ','); i > 0 && k.hasFwd && k.direct.kind == 'g' &&
 				mentioned(c.ixns, func(p string) bool { return p != "" }, name[:i]) {
@@ -578,6 +616,16 @@ func pickBundles(r *hx.RNG) []bundle {
 func genCaseCE(r *hx.RNG, run *hx.Run, names []string) *rbacCase {
 	c := &rbacCase{dflt: r.Bool(), http: r.Chance(60), canon: true}
 	c.env = envT{localTD: localTD, bundles: pickBundles(r)}
+	if jwtPct > 0 {
+		switch r.Intn(6) {
+		case 0:
+			c.env.providers = providerPool[:2]
+		case 1:
+			c.env.providers = nil
+		default:
+			c.env.providers = providerPool
+		}
+	}
 	peerChoices := []string{"", "", "", ""}
 	for _, b := range c.env.bundles {
 		peerChoices = append(peerChoices, b.peer)
@@ -615,6 +663,16 @@ func genCaseCE(r *hx.RNG, run *hx.Run, names []string) *rbacCase {
 			if len(e.Sources) == 0 {
 				return nil
 			}
+			if r.Chance(jwtPct) && len(c.env.providers) > 0 {
+				e.JWT = genJWT(r, true) // applies to every source of the entry
+			}
+			if jwtPct == 0 || len(c.env.providers) == 0 {
+				for _, s := range e.Sources {
+					for _, p := range s.Permissions {
+						p.JWT = nil
+					}
+				}
+			}
 			if err := e.Normalize(); err != nil {
 				run.Tag("entry:normalize-error")
 				continue
@@ -637,7 +695,7 @@ func genCaseCE(r *hx.RNG, run *hx.Run, names []string) *rbacCase {
 // validation would reject, wildcard peers (panic by contract). (peer, name, dst) stays unique.
 func genCaseRaw(r *hx.RNG, names []string) *rbacCase {
 	c := &rbacCase{dflt: r.Bool(), http: r.Chance(60)}
-	c.env = envT{localTD: localTD, bundles: pickBundles(r)}
+	c.env = envT{localTD: localTD, bundles: pickBundles(r), providers: providerPool}
 	if r.Chance(10) {
 		c.env.bundles = append(c.env.bundles, bundle{"*", tdOther, ""})
 	}
@@ -668,6 +726,9 @@ func genCaseRaw(r *hx.RNG, names []string) *rbacCase {
 				x.Permissions = append(x.Permissions, genPerm(r, false))
 			}
 		}
+		if r.Chance(20) {
+			x.JWT = genJWT(r, true)
+		}
 		if r.Chance(50) {
 			x.UpdatePrecedence()
 		} else {
@@ -696,6 +757,9 @@ func finishCase(r *hx.RNG, c *rbacCase, maxCallers, nReqs int) {
 // listenerStream: the same cases, but the rules are taken out of the public listener that
 // the real listener code builds from a connect-proxy config snapshot.
 func listenerStream(run *hx.Run, n, maxCallers int) {
+	saved := jwtPct
+	jwtPct = 0
+	defer func() { jwtPct = saved }()
 	snaps := map[bool]*proxycfg.ConfigSnapshot{}
 	for _, http := range []bool{false, true} {
 		protocol := "tcp"
